@@ -27,11 +27,14 @@ ASSUMPTIONS = [
     'initial states are normalised and right-orthonormal (the sweeps assume a right-orthonormal start; every in-repo caller '
     'orthonormalises first) and have order >= 2 (sweeps are defined on bonds)',
     'exactness is only claimed where the manifold contains the exact trajectory (maximal TT ranks, or rank-1 states under a sum of single-site Hamiltonians) with no effective truncation (threshold <= 1e-12, max_rank >= maximal rank)',
+    'two-site and hybrid schemes: norm and energy conservation is additionally checked when nothing is truncated (threshold <= 1e-12, '
+    'cap >= maximal rank) -- a consequence of the unitary local steps, not a separate claim of the statement',
     'Krylov: dimension = N <= 16 with a generic start vector (Lanczos without re-orthogonalisation), tolerance 1e-7',
 ]
 
 DIMS = [d for d in [[2, 2], [2, 3], [3, 3], [4, 4], [3, 5], [2, 2, 2], [2, 3, 2], [3, 3, 3], [2, 4, 2], [4, 4, 4], [2, 2, 2, 2], [2, 3, 3, 2],
-                    [2, 2, 2, 2, 2], [3, 2, 2, 3], [2, 2, 1], [1, 2, 2], [1, 3, 2, 1], [2, 1, 2], [3, 1], [1, 4], [2, 1, 1, 3], [1, 2, 3, 2]]
+                    [2, 2, 2, 2, 2], [3, 2, 2, 3], [2, 2, 1], [1, 2, 2], [1, 3, 2, 1], [2, 1, 2], [3, 1], [1, 4], [2, 1, 1, 3], [1, 2, 3, 2],
+                    [4, 2], [4, 2, 2], [3, 2, 2], [4, 2, 3], [2, 2, 4], [5, 2, 2], [2, 2, 5]]
         if int(np.prod(d)) <= NMAX]
 
 
@@ -52,14 +55,14 @@ def tdvp_case(draw):
     dims = draw(st.sampled_from(DIMS))
     d = len(dims)
     mr = dense.max_ranks(dims)
-    rk = draw(st.sampled_from(['maximal', 'maximal', 'intermediate', 'rank1', 'product']))
-    if rk == 'maximal':
+    rk = draw(st.sampled_from(['maximal', 'maximal', 'maximal_tiny', 'intermediate', 'rank1', 'product']))
+    if rk in ('maximal', 'maximal_tiny'):
         ranks = mr
     elif rk in ('rank1', 'product'):
         ranks = [1] * (d + 1)
     else:
         ranks = [1] + [draw(st.integers(1, mr[i])) for i in range(1, d)] + [1]
-    c = {'dims': dims, 'ranks': ranks, 'rank_class': rk if (ranks != mr or rk == 'product') else 'maximal', 'cplx': draw(st.booleans()), 'seed': draw(gen.SEED),
+    c = {'dims': dims, 'ranks': ranks, 'rank_class': rk if (ranks != mr or rk in ('product', 'maximal_tiny')) else 'maximal', 'cplx': draw(st.booleans()), 'seed': draw(gen.SEED),
          'h': draw(st.sampled_from([0.05, 0.1, 0.25, 0.5])), 'steps': draw(st.integers(1, 3)),
          'method': draw(st.sampled_from(['tdvp1site', 'tdvp1site', 'tdvp2site', 'tdvp'])),
          'threshold': draw(st.sampled_from([None, None, 0, 1e-12, 1e-8])), 'max_rank': draw(st.sampled_from([None, None, 50, 2, 3])),
@@ -72,7 +75,7 @@ def body_tdvp(c):
     dims, d = c['dims'], len(c['dims'])
     N = int(np.prod(dims))
     product = c['rank_class'] == 'product'
-    if product:
+    if product or c['rank_class'] == 'maximal_tiny':
         # non-interacting sites: a product state stays a product state, so rank 1 represents the dynamics exactly
         H = np.zeros((N, N), dtype=complex if c['cplx'] else float)
         for i, n in enumerate(dims):
@@ -80,7 +83,18 @@ def body_tdvp(c):
     else:
         H = hamiltonian(rng, N, c['cplx'])
     op = TT(dense.op_cores(H, dims))
-    x0 = initial_state(rng, dims, c['ranks'], c['cplx'])
+    if c['rank_class'] == 'maximal_tiny':
+        # maximal formal ranks, but only a tiny entangled component (Schmidt values ~1e-8): a product state plus 1e-8 x generic,
+        # under non-interacting sites so that the small Schmidt values stay small during the evolution
+        pcores = [build.rand_array(rng, (1, n, 1, 1), c['cplx']) for n in dims]
+        gcores = [build.rand_array(rng, (c['ranks'][i], dims[i], 1, c['ranks'][i + 1]), c['cplx']) for i in range(len(dims))]
+        vec = dense.contract(pcores).reshape(-1)
+        vec = vec / np.linalg.norm(vec) + 1e-8 * dense.contract(gcores).reshape(-1)
+        cores = dense.qr_right(dense.tt_svd(vec.reshape(dims), dims, [1] * len(dims), tol=1e-15))
+        cores[0] = cores[0] / np.linalg.norm(cores[0])
+        x0 = TT(cores)
+    else:
+        x0 = initial_state(rng, dims, c['ranks'], c['cplx'])
     v0 = dense.matrix(x0.cores).reshape(-1).astype(complex)
     snaps = [(t, build.snapshot(t)) for t in (op, x0)]
     mr = dense.max_ranks(dims)
@@ -99,7 +113,7 @@ def body_tdvp(c):
     require(sol[0] is x0, 'initial_by_identity', 'first element of the trajectory is not the initial state object')
     for t, s in snaps:
         build.require_unchanged(t, s, 'argument of ' + m)
-    lab = {m, 'ranks_' + ('product' if product else 'maximal' if maximal else c['rank_class'])}
+    lab = {m, 'ranks_' + ('product' if product else 'maximal_tiny' if c['rank_class'] == 'maximal_tiny' else 'maximal' if maximal else c['rank_class'])}
     if 1 in dims:
         lab.add('size1mode')
     if c['cplx']:
@@ -129,9 +143,15 @@ def body_tdvp(c):
             lim = max(cap, max(c['ranks']))
             require(max(s.ranks) <= lim, 'rank_cap', 'ranks %s exceed max_rank %s' % (s.ranks, cap))
         if maximal and not truncating:
-            close(got, v, 1e-8, 1.0, 'exact_at_full_rank', '%s state %d vs expm(-i t H) x0' % (m, k))
+            close(got, v, 1e-10, 1.0, 'exact_at_full_rank', '%s state %d vs expm(-i t H) x0' % (m, k))
         if c.get('normalize', 0) == 2:
             require(abs(np.linalg.norm(got) - 1) <= 1e-9, 'unit_norm', 'normalize=2: state %d has norm %.12f' % (k, np.linalg.norm(got)))
+        if m != 'tdvp1site' and not truncating and cap >= max(mr):
+            # two-site / hybrid sweeps without any truncation are compositions of unitary local steps in orthonormal frames:
+            # norm and energy are conserved exactly as for the one-site scheme (checked only when nothing is cut)
+            require(abs(np.linalg.norm(got) - 1) <= 1e-9, 'norm_conserved_untruncated', '%s step %d: norm %.12f' % (m, k, np.linalg.norm(got)))
+            e = np.real(np.vdot(got, H @ got))
+            require(abs(e - e0) <= 1e-9, 'energy_conserved_untruncated', '%s step %d: energy %.12f, initially %.12f' % (m, k, e, e0))
         if m == 'tdvp1site':
             require(abs(np.linalg.norm(got) - 1) <= 1e-9, 'norm_conserved', 'step %d: norm %.12f' % (k, np.linalg.norm(got)))
             e = np.real(np.vdot(got, H @ got))
@@ -183,7 +203,7 @@ def nt(labels):
 
 SUBCHECKS = [
     Sub('tdvp', tdvp_case(), body_tdvp, nt, quick=250, thorough=2500, shards_quick=8, budget_quick=150,
-        classes=['tdvp1site', 'tdvp2site', 'tdvp', 'ranks_maximal', 'ranks_intermediate', 'ranks_rank1', 'ranks_product', 'size1mode', 'complex', 'order>=3', 'multi_step',
+        classes=['tdvp1site', 'tdvp2site', 'tdvp', 'ranks_maximal', 'ranks_maximal_tiny', 'ranks_intermediate', 'ranks_rank1', 'ranks_product', 'size1mode', 'complex', 'order>=3', 'multi_step',
                  'truncating']),
     Sub('krylov', krylov_case(), body_krylov, nt, quick=100, thorough=1000, shards_quick=4, budget_quick=150,
         classes=['krylov', 'complex', 'order>=3']),
